@@ -251,8 +251,9 @@ Definition grid_interp (a : amp) (tbl : list T) (chs : list ch) : list T :=
 Definition edfa_pin_db (chs : list ch) : T := watt2dbm (nsum (map k_pch chs)).          (* self.pin_db *)
 Definition edfa_eff (a : amp) (chs : list ch) : T :=                                    (* self.effective_gain *)
   eff_gain (a_gain_target a) (a_p_max a) (edfa_pin_db chs).
-Definition edfa_slot_width (chs : list ch) : T :=             (* channel_freq[1] - channel_freq[0] *)
-  match chs with c0 :: c1 :: _ => k_f c1 - k_f c0 | _ => nzero end.
+(* channel_freq[1] - channel_freq[0] if nch > 1 else slot_width[0] *)
+Definition edfa_slot_width (chs : list ch) : T :=
+  match chs with c0 :: c1 :: _ => k_f c1 - k_f c0 | [c0] => k_sw c0 | [] => nzero end.
 Definition edfa_nf (a : amp) (chs : list ch) : list (option T) :=                       (* self.nf *)
   let nf_avg := calc_nf_avg (a_kind a) (edfa_eff a chs) (edfa_pin_db chs) (nlen (map k_pch chs)) (edfa_slot_width chs) in
   map (fun r => oadd nf_avg r) (grid_interp a (a_nf_ripple a) chs).
@@ -263,8 +264,8 @@ Definition edfa_gp (a : amp) (chs : list ch) : list T :=                        
 Definition edfa_propagate (a : amp) (sel : list ch) : res edfa_obs :=
   let chs := in_voa_chs a sel in
   match chs with
-  | _ :: _ :: _ => Ok (edfa_finish a chs (edfa_pin_db chs) (edfa_eff a chs) (edfa_nf a chs) (edfa_gp a chs))
-  | _ => Err "IndexError:channel_freq[1]"        (* self.slot_width = self.channel_freq[1] - self.channel_freq[0] *)
+  | _ :: _ => Ok (edfa_finish a chs (edfa_pin_db chs) (edfa_eff a chs) (edfa_nf a chs) (edfa_gp a chs))
+  | [] => Err "IndexError:slot_width[0]"         (* unreachable from __call__: an empty selection is refused before *)
   end.
 
 (* Edfa.__call__: only the channels whose slot lies inside the amplifier band are propagated (and returned) *)
